@@ -29,7 +29,9 @@ def group : List Item → List Ctl → List (List Ctl × Bytes) → List (List C
 
 def parseOp : List String → Option Op
   | ["new", m, b] => do pure (.new (← nat? m) (← nat? b))
-  | ["new", m, b, "utf8"] => do pure (.new (← nat? m) (← nat? b))   -- ValidateUTF8(true): no effect on what a conforming peer sends
+  -- flags: utf8 = ValidateUTF8(true), bump = the maximum is raised while an asynchronous read waits: no effect on what a
+  -- conforming peer's messages (all within the original maximum) are delivered as
+  | "new" :: m :: b :: _flags => do pure (.new (← nat? m) (← nat? b))
   | "msg" :: ty :: items => do
       let its ← items.mapM item?
       let (parts, trailing) := group its [] []
